@@ -1,4 +1,5 @@
 import Mainchain.Lemmas.StreamReach
+import Mainchain.Lemmas.StreamLive
 /-
 Frame facts: which accounts' balances an operation can touch at all.  `KeepsAt a b b'` : the bank
 `b'` has the same balances as `b` at address `a` (and the same supply), and stays well formed.
@@ -75,87 +76,182 @@ theorem payOut_keeps (a : Addr) (b b' : Bank) (now : Int) (blocked : Addr → Bo
     exact sendCoins_keeps a Mstr to _ _ b b' h1 this hx
   · cases hx; exact .refl a b
 
-/-! ### stream operations never touch a blocked account other than the stream escrow and the fee collector -/
+/-! ### generic bank relations
 
-section stream
-variable (a : Addr) (blocked : Addr → Bool) (h1 : a ≠ Mstr) (h2 : a ≠ Mfee) (hbl : blocked a = true)
-include h1 h2 hbl
+`BankRel R ok` : a reflexive–transitive relation on banks that every `SendCoins` between `ok` endpoints
+satisfies.  Two instances are used: `KeepsAt a` (endpoints other than `a`) and `SameTotals` (any endpoints). -/
 
-theorem claimFromStream_keeps (x x' : SB) (now : Int) (r s : Addr) (o : ClaimOut)
-    (hx : claimFromStream x now blocked r s = .ok (x', o)) : KeepsAt a x.bank x'.bank := by
+structure BankRel (R : Bank → Bank → Prop) (ok : Addr → Prop) (t : Int) : Prop where
+  refl : ∀ b, R b b
+  trans : ∀ a b c, R a b → R b c → R a c
+  /-- every transfer at block time `t` (unix seconds) between `ok` endpoints -/
+  send : ∀ (b b' : Bank) (src dst : Addr) (amt : Coins), ok src → ok dst → b.sendCoins t src dst amt = .ok b' → R b b'
+  ensure : ∀ (b : Bank) (x : Addr), R b (b.ensureAccount x)
+
+theorem keepsAt_rel (a : Addr) (t : Int) : BankRel (KeepsAt a) (fun x => a ≠ x) t :=
+  ⟨KeepsAt.refl a, fun _ _ _ h1 h2 => h1.trans h2, fun b b' src dst amt h1 h2 h => sendCoins_keeps a src dst t amt b b' h1 h2 h,
+   fun b x => ensureAccount_keeps a x b⟩
+
+section rel
+variable (R : Bank → Bank → Prop) (ok : Addr → Prop) (now : Int) (hR : BankRel R ok (now / nsPerSec)) (blocked : Addr → Bool)
+variable (hMstr : ok Mstr) (hMfee : ok Mfee) (hunbl : ∀ x, blocked x = false → ok x)
+include hR hMstr hMfee hunbl
+
+theorem payFee_rel (b b' : Bank) (denom : String) (fee : Int) (hx : payFee b (now / nsPerSec) denom fee = .ok b') : R b b' := by
+  unfold payFee at hx
+  split at hx
+  · exact hR.send _ _ _ _ _ hMstr hMfee hx
+  · cases hx; exact hR.refl b
+
+theorem payOut_rel (b b' : Bank) (to : Addr) (denom : String) (amt : Int)
+    (hx : payOut b (now / nsPerSec) blocked to denom amt = .ok b') : R b b' := by
+  unfold payOut at hx
+  split at hx
+  · simp only [bind_eq_ok, require_eq_ok, Bool.not_eq_true'] at hx
+    obtain ⟨_, hnb, hx⟩ := hx
+    exact hR.send _ _ _ _ _ hMstr (hunbl to hnb) hx
+  · cases hx; exact hR.refl b
+
+theorem claimFromStream_rel (x x' : SB) (r s : Addr) (o : ClaimOut)
+    (hx : claimFromStream x now blocked r s = .ok (x', o)) : R x.bank x'.bank := by
   simp only [claimFromStream, bind_eq_ok, pure_eq_ok, Prod.mk.injEq] at hx
   obtain ⟨st, _, _, _, _, _, _, _, f, _, b1, hb1, b2, hb2, rfl, _⟩ := hx
-  exact (payFee_keeps a _ _ _ _ _ h1 h2 hb1).trans (payOut_keeps a _ _ _ blocked r _ _ h1 hbl hb2)
+  exact hR.trans _ _ _ (payFee_rel R ok now hR blocked hMstr hMfee hunbl _ _ _ _ hb1)
+    (payOut_rel R ok now hR blocked hMstr hMfee hunbl _ _ r _ _ hb2)
 
-theorem settleIfFunded_keeps (x : SB) (now : Int) (r s : Addr) (st : Stream) (z : SB × Stream)
-    (hx : settleIfFunded x now blocked r s st = .ok z) : KeepsAt a x.bank z.1.bank := by
+theorem settleIfFunded_rel (x : SB) (r s : Addr) (st : Stream) (z : SB × Stream)
+    (hx : settleIfFunded x now blocked r s st = .ok z) : R x.bank z.1.bank := by
   unfold settleIfFunded at hx
   split at hx
   · simp only [bind_eq_ok, pure_eq_ok] at hx
     obtain ⟨y, hy, rfl⟩ := hx
-    exact claimFromStream_keeps a blocked h1 h2 hbl x y.1 now r s y.2 (by cases y; exact hy)
-  · cases hx; exact .refl a x.bank
+    exact claimFromStream_rel R ok now hR blocked hMstr hMfee hunbl x y.1 r s y.2 (by cases y; exact hy)
+  · cases hx; exact hR.refl x.bank
 
-theorem addDeposit_keeps (x x' : SB) (now : Int) (r s : Addr) (denom : String) (amt : Int) (hs : a ≠ s)
-    (hx : addDeposit x now blocked r s denom amt = .ok x') : KeepsAt a x.bank x'.bank := by
+theorem addDeposit_rel (x x' : SB) (r s : Addr) (denom : String) (amt : Int) (hs : ok s)
+    (hx : addDeposit x now blocked r s denom amt = .ok x') : R x.bank x'.bank := by
   simp only [addDeposit, bind_eq_ok, pure_eq_ok] at hx
   obtain ⟨st, _, _, _, y, hy, _, _, bank, hbank, _, _, rfl⟩ := hx
-  have hy' : KeepsAt a x.bank y.1.bank := by
+  have hy' : R x.bank y.1.bank := by
     split at hy
     · simp only [bind_eq_ok, pure_eq_ok] at hy
       obtain ⟨z, hz, rfl⟩ := hy
-      exact settleIfFunded_keeps a blocked h1 h2 hbl x now r s st z hz
-    · cases hy; exact .refl a x.bank
-  exact hy'.trans (sendCoins_keeps a s Mstr _ _ _ _ hs h1 hbank)
+      exact settleIfFunded_rel R ok now hR blocked hMstr hMfee hunbl x r s st z hz
+    · cases hy; exact hR.refl x.bank
+  exact hR.trans _ _ _ hy' (hR.send _ _ _ _ _ hs hMstr hbank)
 
-theorem setNewFlowRate_keeps (x x' : SB) (now : Int) (r s : Addr) (rate : Int)
-    (hx : setNewFlowRate x now blocked r s rate = .ok x') : KeepsAt a x.bank x'.bank := by
+theorem setNewFlowRate_rel (x x' : SB) (r s : Addr) (rate : Int)
+    (hx : setNewFlowRate x now blocked r s rate = .ok x') : R x.bank x'.bank := by
   simp only [setNewFlowRate, bind_eq_ok] at hx
   obtain ⟨st, _, hx⟩ := hx
   split at hx
   · simp only [bind_eq_ok, pure_eq_ok] at hx
     obtain ⟨z, hz, _, _, rfl⟩ := hx
-    exact settleIfFunded_keeps a blocked h1 h2 hbl x now r s st z hz
-  · simp only [pure_eq_ok] at hx; subst hx; exact .refl a x.bank
+    exact settleIfFunded_rel R ok now hR blocked hMstr hMfee hunbl x r s st z hz
+  · simp only [pure_eq_ok] at hx; subst hx; exact hR.refl x.bank
 
-theorem cancelStream_keeps (x x' : SB) (now : Int) (r s : Addr)
-    (hx : cancelStream x now blocked r s = .ok x') : KeepsAt a x.bank x'.bank := by
+theorem cancelStream_rel (x x' : SB) (r s : Addr)
+    (hx : cancelStream x now blocked r s = .ok x') : R x.bank x'.bank := by
   simp only [cancelStream, bind_eq_ok, pure_eq_ok] at hx
   obtain ⟨st, _, _, _, z, hz, bank, hbank, rfl⟩ := hx
-  exact (settleIfFunded_keeps a blocked h1 h2 hbl x now r s st z hz).trans (payOut_keeps a _ _ _ blocked s _ _ h1 hbl hbank)
+  exact hR.trans _ _ _ (settleIfFunded_rel R ok now hR blocked hMstr hMfee hunbl x r s st z hz)
+    (payOut_rel R ok now hR blocked hMstr hMfee hunbl _ _ s _ _ hbank)
 
-end stream
+end rel
 
-/-- a stream message-server operation whose sender is not `a` leaves the balances of the blocked
-account `a` (≠ stream escrow, ≠ fee collector) untouched -/
-theorem streamOp_keeps (a : Addr) (h1 : a ≠ Mstr) (h2 : a ≠ Mfee) (hbl : isBlocked a = true) (now : Int) (x y : SB)
-    (h : StreamOp now x y) (hs : ∀ r s denom amt rate, createStream x now isBlocked r s denom amt rate = .ok y → s.decode ≠ some a)
-    (ht : ∀ r s denom amt d z, topUpDeposit x now isBlocked r s denom amt = .ok (y, d, z) → s.decode ≠ some a) :
-    KeepsAt a x.bank y.bank := by
-  cases h with
-  | create r s denom amt rate h =>
-    have hne := hs r s denom amt rate h
-    simp only [createStream, bind_eq_ok, require_eq_ok, decodeM_eq_ok] at h
-    obtain ⟨sa, hsa, ra, _, _, _, _, _, _, _, _, _, _, _, _, _, h⟩ := h
-    have : a ≠ sa := by intro e; subst e; exact hne hsa
-    exact addDeposit_keeps a isBlocked h1 h2 hbl { x with str := setStream x ra sa _ } y now ra sa denom amt this h
-  | claim r s o h =>
-    simp only [claimStream, bind_eq_ok, require_eq_ok, decodeM_eq_ok] at h
-    obtain ⟨sa, _, ra, _, _, _, h⟩ := h
-    exact claimFromStream_keeps a isBlocked h1 h2 hbl x y now ra sa o h
-  | topup r s denom amt d z h =>
-    have hne := ht r s denom amt d z h
-    simp only [topUpDeposit, bind_eq_ok, pure_eq_ok, require_eq_ok, decodeM_eq_ok, Prod.mk.injEq] at h
-    obtain ⟨sa, hsa, ra, _, _, _, st, _, _, _, x', hx', rfl, _⟩ := h
-    have : a ≠ sa := by intro e; subst e; exact hne hsa
-    exact addDeposit_keeps a isBlocked h1 h2 hbl x x' now ra sa denom amt this hx'
-  | rate r s rate h =>
-    simp only [updateFlowRate, bind_eq_ok, require_eq_ok, decodeM_eq_ok] at h
-    obtain ⟨sa, _, ra, _, _, _, _, _, h⟩ := h
-    exact setNewFlowRate_keeps a isBlocked h1 h2 hbl x y now ra sa rate h
-  | cancel r s h =>
-    simp only [cancelStreamMsg, bind_eq_ok, require_eq_ok, decodeM_eq_ok] at h
-    obtain ⟨sa, _, ra, _, _, _, _, _, h⟩ := h
-    exact cancelStream_keeps a isBlocked h1 h2 hbl x y now ra sa h
+/-- **every leaf message**, signed by an address somebody can sign for, relates the bank before and after
+by any `BankRel` whose `ok` endpoints include the stream escrow, the fee collector, every non-blocked
+address and every possible signer -/
+theorem leaf_bank_rel (R : Bank → Bank → Prop) (ok : Addr → Prop) (s : State) (hR : BankRel R ok (s.time / nsPerSec))
+    (hMstr : ok Mstr) (hMfee : ok Mfee)
+    (hunbl : ∀ x, isBlocked x = false → ok x) (hsign : ∀ x, MaySign x → ok x)
+    (wall : Nat) (s' : State) (m : Msg) (r : Resp) (hl : m.isLeaf = true) (hsig : m.SignedOK)
+    (h : execMsg wall s m = .ok (s', r)) : R s.bank s'.bank := by
+  obtain ⟨sa, hsa, hmay⟩ := hsig
+  have hoksa := hsign sa hmay
+  cases m with
+  | strCreate rr sn amt denom rate =>
+    simp only [execMsg, bind_eq_ok, pure_eq_ok, Prod.mk.injEq] at h
+    obtain ⟨x, hx, rfl, _⟩ := h
+    simp only [Msg.signer, signerTok_strCreate, Option.bind_some] at hsa
+    simp only [createStream, bind_eq_ok, require_eq_ok, decodeM_eq_ok] at hx
+    obtain ⟨sa', hsa', ra, _, _, _, _, _, _, _, _, _, _, _, _, _, hx⟩ := hx
+    rw [hsa] at hsa'; cases hsa'
+    exact addDeposit_rel R ok s.time hR isBlocked hMstr hMfee hunbl _ x ra sa denom amt hoksa hx
+  | strClaim rr sn =>
+    simp only [execMsg, bind_eq_ok, pure_eq_ok, Prod.mk.injEq] at h
+    obtain ⟨x, hx, rfl, _⟩ := h
+    simp only [claimStream, bind_eq_ok, require_eq_ok, decodeM_eq_ok] at hx
+    obtain ⟨sa', _, ra, _, _, _, hx⟩ := hx
+    exact claimFromStream_rel R ok s.time hR isBlocked hMstr hMfee hunbl (toSB s) x.1 ra sa' x.2 (by cases x; exact hx)
+  | strTopup rr sn amt denom =>
+    simp only [execMsg, bind_eq_ok, pure_eq_ok, Prod.mk.injEq] at h
+    obtain ⟨x, hx, rfl, _⟩ := h
+    simp only [Msg.signer, signerTok_strTopup, Option.bind_some] at hsa
+    simp only [topUpDeposit, bind_eq_ok, pure_eq_ok, require_eq_ok, decodeM_eq_ok] at hx
+    obtain ⟨sa', hsa', ra, _, _, _, st, _, _, _, x', hx', hxe⟩ := hx
+    rw [hsa] at hsa'; cases hsa'
+    have : x.1 = x' := by cases x; simp only [Prod.mk.injEq] at hxe; exact hxe.1.symm
+    rw [show (liftSB s x.1).bank = x.1.bank from rfl, this]
+    exact addDeposit_rel R ok s.time hR isBlocked hMstr hMfee hunbl (toSB s) x' ra sa denom amt hoksa hx'
+  | strRate rr sn rate =>
+    simp only [execMsg, bind_eq_ok, pure_eq_ok, Prod.mk.injEq] at h
+    obtain ⟨x, hx, rfl, _⟩ := h
+    simp only [updateFlowRate, bind_eq_ok, require_eq_ok, decodeM_eq_ok] at hx
+    obtain ⟨sa', _, ra, _, _, _, _, _, hx⟩ := hx
+    exact setNewFlowRate_rel R ok s.time hR isBlocked hMstr hMfee hunbl (toSB s) x ra sa' rate hx
+  | strCancel rr sn =>
+    simp only [execMsg, bind_eq_ok, pure_eq_ok, Prod.mk.injEq] at h
+    obtain ⟨x, hx, rfl, _⟩ := h
+    simp only [cancelStreamMsg, bind_eq_ok, require_eq_ok, decodeM_eq_ok] at hx
+    obtain ⟨sa', _, ra, _, _, _, _, _, hx⟩ := hx
+    exact cancelStream_rel R ok s.time hR isBlocked hMstr hMfee hunbl (toSB s) x ra sa' hx
+  | strParams auth fee =>
+    simp only [execMsg, bind_eq_ok, pure_eq_ok, Prod.mk.injEq] at h
+    obtain ⟨_, _, _, _, rfl, _⟩ := h
+    exact hR.refl _
+  | bankSend src dst coins =>
+    simp only [execMsg, bind_eq_ok, pure_eq_ok, Prod.mk.injEq, require_eq_ok, decodeM_eq_ok] at h
+    obtain ⟨a, ha, b, _, _, hb, bank, hbank, rfl, _⟩ := h
+    simp only [Msg.signer, signerTok_bankSend, Option.bind_some] at hsa
+    rw [ha] at hsa; cases hsa
+    exact hR.send _ _ _ _ _ hoksa (hunbl b (by simpa using hb)) hbank
+  | authzGrant g e kind =>
+    simp only [execMsg, bind_eq_ok, pure_eq_ok, Prod.mk.injEq] at h
+    obtain ⟨_, _, ea, _, rfl, _⟩ := h
+    exact hR.ensure s.bank ea
+  | authzRevoke g e kind =>
+    simp only [execMsg, bind_eq_ok, pure_eq_ok, Prod.mk.injEq] at h
+    obtain ⟨_, _, _, _, _, _, rfl, _⟩ := h
+    exact hR.refl _
+  | authzExec g msgs => simp [Msg.isLeaf] at hl
+  | feegrantGrant g e =>
+    simp only [execMsg, bind_eq_ok, pure_eq_ok, Prod.mk.injEq] at h
+    obtain ⟨_, _, ea, _, _, _, rfl, _⟩ := h
+    exact hR.ensure s.bank ea
+  | entRaise p amt denom =>
+    simp only [execMsg, bind_eq_ok, pure_eq_ok, Prod.mk.injEq] at h
+    obtain ⟨_, _, rfl, _⟩ := h; exact hR.refl _
+  | entDecide id dec sg =>
+    simp only [execMsg, bind_eq_ok, pure_eq_ok, Prod.mk.injEq] at h
+    obtain ⟨_, _, rfl, _⟩ := h; exact hR.refl _
+  | entWl action a sg =>
+    simp only [execMsg, bind_eq_ok, pure_eq_ok, Prod.mk.injEq] at h
+    obtain ⟨_, _, rfl, _⟩ := h; exact hR.refl _
+  | entParams auth p =>
+    simp only [execMsg, bind_eq_ok, pure_eq_ok, Prod.mk.injEq] at h
+    obtain ⟨_, _, _, _, rfl, _⟩ := h; exact hR.refl _
+  | regReg k moniker name genesis type o =>
+    simp only [execMsg, bind_eq_ok, pure_eq_ok, Prod.mk.injEq] at h
+    obtain ⟨_, _, rfl, _⟩ := h; cases k <;> exact hR.refl _
+  | regRec k id key rc o =>
+    simp only [execMsg, bind_eq_ok, pure_eq_ok, Prod.mk.injEq] at h
+    obtain ⟨_, _, rfl, _⟩ := h; cases k <;> exact hR.refl _
+  | regBuy k id n o =>
+    simp only [execMsg, bind_eq_ok, pure_eq_ok, Prod.mk.injEq] at h
+    obtain ⟨_, _, rfl, _⟩ := h; cases k <;> exact hR.refl _
+  | regParams k auth p =>
+    simp only [execMsg, bind_eq_ok, pure_eq_ok, Prod.mk.injEq] at h
+    obtain ⟨_, _, _, _, rfl, _⟩ := h; cases k <;> exact hR.refl _
 
 end Mainchain
